@@ -12,7 +12,7 @@ MANIFEST = {
     "note": "Trusted: Coq kernel; the 4 standard-library axioms that enter through Flocq (used by validate's float comparisons) as printed by Print Assumptions; extraction + OCaml driver (vm_compute cross-check each run); harness/src/fam_hist.rs and hook H3 (verif_housekeeping_step); the Python monitors. Modelled, not verified: tokio broadcast (ring with capacity rounded up to a power of two, Lagged skipping) and RwLock, HashMap iteration order (outputs are sorted), the gRPC handlers on top of AuthorizedAccess (exercised by the handler-level checks), SystemTime (a timestamp is canonicalised to the operation during which it was taken; expiry is crossed in real time at a TICK).",
 }
 PROPS = set("C03".split(","))
-WEIGHTS = H.W_MIX
+WEIGHTS = dict(H.W_MIX, tick=1.5, get=5)
 RULE = B.RULE
 TRUSTED = B.TRUSTED
 ASSUMPTIONS = B.ASSUMPTIONS
